@@ -125,7 +125,7 @@ class Interp(object):
             o = st.heap.get(org[1])
             if o is not None and org[2] in o.fields and isinstance(o.fields[org[2]], Top) \
                     and o.fields[org[2]].tag == top.tag:
-                o.fields[org[2]] = newv
+                st.wobj(org[1]).fields[org[2]] = newv
         elif org[0] == "local":
             fr = st.frames[org[1]] if org[1] < len(st.frames) else None
             if fr is not None and isinstance(fr.get(org[2]), Top) and fr[org[2]].tag == top.tag:
@@ -143,7 +143,7 @@ class Interp(object):
             org = v.origin
             if org is not None:
                 if org[0] == "field" and org[1] in s2.heap:
-                    s2.heap[org[1]].fields[org[2]] = c
+                    s2.wobj(org[1]).fields[org[2]] = c
                 elif org[0] == "local" and org[1] < len(s2.frames):
                     s2.frames[org[1]][org[2]] = c
             out.append((s2, c))
@@ -438,6 +438,7 @@ class Interp(object):
                     return [(s, "next" if k == "val" else k, None if k == "val" else x) for (s, k, x) in outs]
             if isinstance(v, Top) and v.origin is None:
                 v = Top(v.tag, v.input, v.domain, ("field", base.oid, attr), v.truth)
+            o = st.wobj(base)
             o.fields[attr] = v
             self.emit(st, ("setattr", base.oid, o.clsname(), attr, v))
             return [(st, "next", None)]
@@ -455,7 +456,7 @@ class Interp(object):
 
     def set_item(self, st, base, idx, v, node):
         if isinstance(base, Ref):
-            o = st.obj(base)
+            o = st.wobj(base)
             if o.kind == "dict":
                 if o.items is None:
                     o.items = None
@@ -490,7 +491,7 @@ class Interp(object):
             if k != "val":
                 res.append((s, k, v))
                 continue
-            if isinstance(v, Top) and v.truth is None and v.domain is None and not v.input:
+            if isinstance(v, Top) and v.truth is None and v.domain is None and not v.tag.startswith("bool:"):
                 # condition the abstraction cannot evaluate: assumed to hold (recorded)
                 self.stats["assumed_asserts"].add("%s: assert %s" % (self.loc(node), unparse(node.test)))
                 res.append((s, "next", None))
@@ -589,7 +590,8 @@ class Interp(object):
     def exc_value(self, st, exc):
         if exc.ref is not None:
             return exc.ref
-        ref = st.alloc(HObj(exc.cls, {"args": Top("exc.args", input=True)}, kind="exc", open=True))
+        ref = st.alloc(HObj(exc.cls, {"args": Top("exc.args", input=True, domain=((), ("<message>",)))},
+                            kind="exc", open=True))
         exc.ref = ref
         return ref
 
@@ -605,7 +607,18 @@ class Interp(object):
             hook = self.stubs.get("@with")
             if hook is None:
                 raise Unsupported("with-statement needs an '@with' stub at %s" % self.loc(node))
-            res.extend(hook(self, s, cm, item, node))
+            if hook == "transparent":
+                # context manager without effect on the analysed state: run the body
+                if item.optional_vars is not None:
+                    for (s2, k2, v2) in self.assign(s, item.optional_vars, cm):
+                        if k2 == "next":
+                            res.extend(self.exec_block(s2, node.body))
+                        else:
+                            res.append((s2, k2, v2))
+                else:
+                    res.extend(self.exec_block(s, node.body))
+            else:
+                res.extend(hook(self, s, cm, item, node))
         return res
 
     def s_For(self, st, node):
